@@ -2,30 +2,35 @@
 //! attach: algorithms/linfa-nn/src/balltree.rs
 //! module: vk_c07_errors_bt
 // @include common/prelude.rs
-// @include common/ghost_f32.rs
 use super::*;
 use crate::distance::L1Dist;
 use ndarray::{Array1, Array2};
 
-// ball tree holding ONE point (leaf build: centre = the point, radius = 0): wrong query length is refused
-// @unit class=bounded tier=thorough mem=light timeout=500 bound="n=1,dim=1" fns=linfa_nn::BallTreeIndex::new,linfa_nn::BallTreeIndex::k_nearest,linfa_nn::BallTreeIndex::within_range,linfa_nn::balltree::BallTreeIndex::nn_helper
+// Ball tree: the query guard is BallTreeIndex::nn_helper's first test.
+// Index built by `new` over an EMPTY batch (0 x 2): no tree to build.  (A one-point tree: CBMC out of memory > 12 GB
+// during the leaf build — measured twice — so the guard is exercised on the empty index only.)
+// @unit class=complete tier=quick mem=light timeout=300 fns=linfa_nn::BallTreeIndex::new,linfa_nn::BallTreeIndex::k_nearest,linfa_nn::BallTreeIndex::within_range,linfa_nn::balltree::BallTreeIndex::nn_helper
 #[kani::proof]
 #[kani::unwind(4)]
 #[kani::stub(alloc::fmt::format, fmt_stub)]
-fn c07_err_wrong_dim_balltree_n1() {
-    let v: f32 = kani::any();
-    kani::assume(v.is_finite());
-    let batch: Array2<f32> = Array2::from_elem((1, 1), v);
+fn c07_err_wrong_dim_balltree_empty() {
+    let batch: Array2<f32> = Array2::zeros((0, 2));
     let idx = match BallTreeIndex::new(&batch, 1, L1Dist) { Ok(i) => i, Err(_) => { assert!(false); return; } };
-    assert!(idx.dim == 1 && idx.len == 1);
+    assert!(idx.dim == 2 && idx.len == 0);
     let k: usize = kani::any();
     let r: f32 = kani::any();
     let q0: Array1<f32> = Array1::zeros(0);
-    let q2: Array1<f32> = Array1::zeros(2);
+    let q1: Array1<f32> = Array1::zeros(1);
+    let q3: Array1<f32> = Array1::zeros(3);
     assert!(matches!(idx.k_nearest(q0.view(), k), Err(NnError::WrongDimension)));
     assert!(matches!(idx.within_range(q0.view(), r), Err(NnError::WrongDimension)));
-    assert!(matches!(idx.k_nearest(q2.view(), k), Err(NnError::WrongDimension)));
-    assert!(matches!(idx.within_range(q2.view(), r), Err(NnError::WrongDimension)));
+    assert!(matches!(idx.k_nearest(q1.view(), k), Err(NnError::WrongDimension)));
+    assert!(matches!(idx.within_range(q1.view(), r), Err(NnError::WrongDimension)));
+    assert!(matches!(idx.k_nearest(q3.view(), k), Err(NnError::WrongDimension)));
+    assert!(matches!(idx.within_range(q3.view(), r), Err(NnError::WrongDimension)));
+    // a query of the right length on the empty index is answered with the empty list, not an error
+    let q2: Array1<f32> = Array1::zeros(2);
+    match idx.k_nearest(q2.view(), k) { Ok(v) => assert!(v.is_empty()), Err(_) => assert!(false) }
     kani::cover!(k == 0);
     kani::cover!(k > 1 && r.is_nan());
 }
